@@ -53,7 +53,17 @@ class unordered_set(set):
 
 
 class config:
-    pass
+    """the C struct `config`: assigning a Python int to one of its `unsigned` fields goes through Cython's checked conversion, which raises
+    OverflowError for a negative value and for a value that does not fit into 32 bits (it does not wrap)"""
+    _UNSIGNED = ('num_tags', 'pruning_size', 'nbest', 'max_step')
+
+    def __setattr__(self, k, v):
+        if k in self._UNSIGNED and isinstance(v, int) and not isinstance(v, bool):
+            if v < 0:
+                raise OverflowError("can't convert negative value to unsigned int")
+            if v >= (1 << 32):
+                raise OverflowError('Python int too large to convert to C unsigned int')
+        object.__setattr__(self, k, v)
 
 
 class _Vec:            # vector[combinator_result]* handed to scaffold
